@@ -2,10 +2,10 @@
 
 package test
 
-// Read-only accessors (and one atomic "API client" helper) for the C14/C15
-// end-to-end harnesses (see /verif/DESIGN.md §5 C14, C15). Nothing here
-// changes the behaviour of the stub cloud; it only exposes what StubVM,
-// StubInstanceSet and Queue keep private.
+// Accessors (and one atomic "API client" helper) for the C14/C15 end-to-end
+// harnesses (see /verif/DESIGN.md §5 C14, C15). They expose what StubVM,
+// StubInstanceSet and Queue keep private; the only one that changes stub
+// state is C14ResetKill, which corrects the stub's sticky kill flag.
 
 import (
 	"git.arvados.org/arvados.git/lib/cloud"
@@ -42,6 +42,21 @@ func (svm *StubVM) C14Killing(uuid string) bool {
 	svm.Lock()
 	defer svm.Unlock()
 	return svm.killing[uuid]
+}
+
+// C14ResetKill forgets that a "crunch-run --kill" was received for the
+// given container. The stub keeps that flag per VM forever, so that every
+// later crunch-run process for the same container on the same VM exits
+// immediately ("killed") -- a real crunch-run --kill signals the process
+// that exists and leaves no trace. The harness calls this when a new
+// "crunch-run --detach" for the container arrives at the VM; without it a
+// container that was killed once on a VM can never run there again, and a
+// dispatcher that keeps choosing that VM loops forever (a stub artifact, not
+// a behaviour of the code under test).
+func (svm *StubVM) C14ResetKill(uuid string) {
+	svm.Lock()
+	defer svm.Unlock()
+	delete(svm.killing, uuid)
 }
 
 // C14Tags returns a copy of the VM's current tags.
